@@ -59,6 +59,11 @@ def make_neighbours(rng, d, cls, skip=None):
             continue
         r, _, _ = RE.build_record(rng, d, nm, cls, 2, ops_per=(1, 3))
         r.close()
+    # records of the SAME name in sub-directories (a backup copy, an unrelated record): another directory, another record
+    for sub in ("backup", "foo.old/deeper"):
+        (Path(d) / sub).mkdir(parents=True, exist_ok=True)
+        r, _, _ = RE.build_record(rng, Path(d) / sub, skip or "foo", cls, 2, ops_per=(1, 2))
+        r.close()
 
 
 def changed(s0, s1, names):
